@@ -447,7 +447,11 @@ def compile_ast(
             )
 
             if nd.how == "left":
-                joined = df.join(joined, on="__INDEX__", how="left").drop("__INDEX__")
+                # only take the right table's columns from the matches, the left columns
+                # would be duplicated (with a `_right` suffix that may collide)
+                joined = df.join(
+                    joined.select("__INDEX__", *right_df.collect_schema().names()), on="__INDEX__", how="left"
+                ).drop("__INDEX__")
 
             df = joined
 
